@@ -44,7 +44,7 @@ func init() {
 		assumptions: []string{"spacing is measured from the instant a run was due: a start held back by the single worker being busy with another run is not the limiter's doing", "reload retries after a failed reload bypass the limiter by design and are C12's subject"},
 		real:        []string{"pkg/utils/workqueue rate limiters and WorkQueue", "client-go rate-limiting/delaying queue", "controller-runtime controller worker loop (reconcile profile)"},
 		stub:        []string{"reload / reconcile callbacks: recorders with generated processing time", "wall clock: testing/synctest fake clock"}}
-	propMeta["C14"] = meta{rule: "batches profile (L0, 4 of 5 runs): 4..18 informer events over 7 kinds (several events about one object, ConfigMap deletions) delivered by one task per kind, 1..6 batch swaps by a reconciler task, interleaved at statement granularity by the tape; handoff-l2 profile (L2, 1 of 5 runs): the real controller with class changes and lease changes, every change description the watchers hold when a batch is taken must reach ReconcileIngress; non-trivial = at least one accepted event and one swap (L0) or two reconciliations (L2); distinct = distinct trace signature",
+	propMeta["C14"] = meta{rule: "batches profile (L0, 4 of 5 runs): 4..18 informer events over 7 kinds (several events about one object, ConfigMap deletions) delivered by one task per kind, 1..6 batch swaps by a reconciler task, interleaved at statement granularity by the tape; handoff-l2 profile (L2, 1 of 5 runs): the real controller with class changes and lease changes, every event the watchers accept must be in a batch some reconciliation takes, and every change description the watchers hold when a batch is taken must reach ReconcileIngress (half of the runs with reconciliations that fail and are retried); non-trivial = at least one accepted event and one swap (L0) or two reconciliations (L2); distinct = distinct trace signature",
 		assumptions: []string{"watchers.go is instrumented with a yield before every statement and a scheduler-aware mutex; exactly one task runs at a time", "porcupine decides linearizability of the put/take-all history against a multiset accumulator; Unknown (timeout) is harness trouble, never a verdict"},
 		real:        []string{"pkg/controller/reconciler watchers: handlers, predicates, compose/notify, getChangedObjects/initCh"},
 		stub:        []string{"validator (class membership read from the object)", "reconcile queue: recorder", "informers: scheduler-owned tasks"}}
